@@ -26,8 +26,11 @@ def gen_signature(rnd, max_params=4, names=None):
     return out
 
 
+RECEIVER = "self"  # the name generated methods give the object they are called on (set per model: python does not care)
+
+
 def sig_text(params, self_=True):
-    parts = ["self"] if self_ else []
+    parts = [RECEIVER] if self_ else []
     for n, t, d in params:
         parts.append(f"{n}: {t}" + ("" if d is inspect.Parameter.empty else f" = {d!r}"))
     return ", ".join(parts)
@@ -38,8 +41,10 @@ class Model:
     the same method names on different classes with different signatures; registered functions."""
 
     def __init__(self, rnd, callbacks=False):
+        global RECEIVER
         self.rnd = rnd
         self.id = next(_mid)
+        self.receiver = RECEIVER = rnd.choice(["self", "self", "self", "this", "me"])
         self.sigs = {}  # (cls, method) -> params
         self.ret = {}  # (cls, method) -> return type text
         self.funcs = {}  # function name -> params
@@ -108,7 +113,8 @@ class Model:
                     src.append(f"    def {cm}({sig_text(params)}) -> {ct}: ...")
         for i in range(3):
             fn = f"tmf{self.id}_{i}"
-            params = gen_signature(rnd, 3, names=["a", "b", "c", "x"])
+            # (a plain function may well call a parameter `self`)
+            params = gen_signature(rnd, 3, names=["a", "b", "c", "x", "self"])
             self.funcs[fn] = params
             self.ret[("func", fn)] = "float"
             src.append("@func_adl_callable()")
@@ -120,6 +126,7 @@ class Model:
         self.funcs_typed = {lead: (lp, "Jet")}
         src += ["import ast as _ast", "def _proc_new_node(s, a):", "    return s, _ast.Call(func=a.func, args=list(a.args), keywords=list(a.keywords))",
                 "@func_adl_callable(_proc_new_node)", f"def {lead}({sig_text(lp, self_=False)}) -> Jet: ..."]
+        RECEIVER = "self"
         self.source = "\n".join(src) + "\n"
         self.ns = {}
         exec(compile(self.source, f"<typedmodel{self.id}>", "exec"), self.ns)
@@ -127,10 +134,14 @@ class Model:
 
     def redefine_method(self, rnd, cls, meth):
         """History: a method of an already-used class is declared again with another signature."""
+        global RECEIVER
         params = gen_signature(rnd)
         rt = self.ret[(cls, meth)]
         ns = dict(self.ns)
-        exec(f"def {meth}({sig_text(params)}) -> {rt}: ...", ns)
+        RECEIVER = self.receiver
+        text = f"def {meth}({sig_text(params)}) -> {rt}: ..."
+        RECEIVER = "self"
+        exec(text, ns)
         setattr(self.ns[cls], meth, ns[meth])
         self.sigs[(cls, meth)] = params
 
